@@ -20,6 +20,9 @@ class PathDumper(FileDumper):
             return
         path_part = os.path.dirname(path)
         PathDumper.__makedirs(path_part)
+        if os.path.isdir(path):
+            # shutil.copy would put the file INTO that directory under its temporary name
+            raise IsADirectoryError('Cannot write {}: a directory of that name exists'.format(path))
         shutil.copy(filename, path)
         return path
 
